@@ -111,7 +111,12 @@ def handle (line : String) : String :=
       let o2 := if at_ == "h" then (outcome (simulate true false cfg vl pre at_ act al ch cut endk uob)).name else o
       -- ... and a reset may hit that write instead of the read
       let o3 := if at_ == "h" && (act == "r" || endk == "r") then (outcome (simulate true true cfg vl pre at_ act al ch cut endk uob)).name else o
-      let l := [o] ++ (if o2 != o then [o2] else []) ++ (if o3 != o && o3 != o2 then [o3] else [])
+      -- ... squid may have received only little of the virgin body when a stub that acts at `h` is already answering
+      let o4 := if at_ == "h" && pre > 1000 then (outcome (simulate false false cfg vl 1000 at_ act al ch cut endk uob)).name else o
+      -- ... and a reset behind a (partial) reply may overtake the reply bytes still queued in the kernel
+      let o5 := if endk == "r" && cut != "-" then (outcome (simulate false false cfg vl pre at_ "r" al ch "-" endk uob)).name else o
+      let o6 := if endk == "r" && cut != "-" && at_ == "h" then (outcome (simulate true true cfg vl pre at_ "r" al ch "-" endk uob)).name else o
+      let l := [o, o2, o3, o4, o5, o6].eraseDups
       "|".intercalate l
     | _, _, _, _, _, _, _, _, _, _, _, _, _, _ => "bad-op"
   | _ => "bad-op"
